@@ -168,9 +168,9 @@ pub fn strategy(defs_in_loop: bool) -> impl Strategy<Value = Case> {
 pub fn run_check(ctx: &mut Ctx) {
     ctx.rule = "generator programs with .loop (count 0-4, `index` uses), .if/else on constant conditions, macros (0-2 parameters, invoked from anywhere incl. loops), pure constants, nested to depth 3, with outer and forward references in bodies; each program P is compared with expand_k(P) for k in {loops, ifs, macros, constants, all}: both assemble or both are rejected, and segment images are identical; expand_all(P) and P are additionally checked against the reference layout model. non-trivial = assembled, something expanded and (nesting >= 2 or a forward reference)".into();
     ctx.assumptions.push("model/expand.rs implements the documented meaning: loop body repeated in its own braces with index replaced, the selected branch inline, macro body in braces with parameters as constants, constants replaced by parenthesised values".into());
-    let n = ctx.tier.pick(5000, 120_000);
+    let n = ctx.tier.pick(15_000, 400_000);
     ctx.campaign_parallel("no-definitions-in-loop-bodies", n, 16, || strategy(false), prop, to_json);
-    let n2 = ctx.tier.pick(5000, 120_000);
+    let n2 = ctx.tier.pick(15_000, 400_000);
     ctx.campaign_parallel("with-definitions-in-loop-bodies", n2, 16, || strategy(true), prop, to_json);
     let total = ctx.evaluations.max(1);
     let k = ctx.label_count("nesting>=2");
